@@ -59,9 +59,10 @@ class SyncBridge:
             else:
                 self.d._receive(self.t, p)
 
-    def s2c(self):
+    def s2c(self, limit=None):
         """Move everything the server queued to the client.  Returns the
-        number of frames moved."""
+        number of frames moved.  With a limit: that many frames arrive, the
+        rest of what is queued is lost with the connection."""
         n = 0
         if self.t is None:
             return 0
@@ -78,6 +79,8 @@ class SyncBridge:
             if pkt is None:
                 continue
             for p in reframe(pkt, self.framing):
+                if limit is not None and n >= limit:
+                    continue
                 n += 1
                 self.frames_s2c += 1
                 if p.binary:
@@ -85,6 +88,17 @@ class SyncBridge:
                 if self.h.eio.state == 'connected':
                     self.h.eio._receive_packet(p)
         return n
+
+    def partial_loss(self, send, keep):
+        """The server sends (send()), `keep` frames of it reach the client,
+        then the connection is lost on both sides."""
+        send()
+        self.s2c(limit=keep)
+        self.h.pump()
+        t, self.t = self.t, None
+        self.h.lose()
+        t.lose()
+        self.d.join()
 
     def idle(self, ev, timeout):
         return self.s2c() > 0
@@ -145,6 +159,7 @@ class AsyncBridge:
         self.h.raw_hook = self.c2s
         self.h.connect_hook = self.on_connect
         self._shuttle = None
+        self.limit = None
 
     async def on_connect(self):
         from engineio import async_socket
@@ -160,6 +175,8 @@ class AsyncBridge:
         await d.eio._trigger_event('connect', eio_sid, env, run_async=False)
         s.connected = True
         self.t = t
+        if self._shuttle:
+            self._shuttle.cancel()
         self._shuttle = self.loop.create_task(self.shuttle())
 
     async def c2s(self, pkt):
@@ -185,11 +202,33 @@ class AsyncBridge:
             if pkt is None:
                 continue
             for p in reframe(pkt, self.framing):
+                if self.limit is not None:
+                    if self.limit <= 0:
+                        continue
+                    self.limit -= 1
                 self.frames_s2c += 1
                 if p.binary:
                     self.binary_frames += 1
                 if self.h.eio.state == 'connected':
                     await self.h.eio._receive_packet(p)
+
+    def partial_loss(self, send, keep):
+        """The server sends (await send()), `keep` frames of it reach the
+        client, then the connection is lost on both sides."""
+        async def go():
+            self.limit = keep
+            await send()
+            await settle(self.loop, horizon=0)
+            t, self.t = self.t, None
+            self._shuttle.cancel()
+            self._shuttle = None
+            self.limit = None
+            await self.h.a_lose()
+            await t.socket.close(
+                wait=False, abort=True,
+                reason=self.d.eio.reason.TRANSPORT_ERROR)
+            self.d._reap(t)
+        self.run(go())
 
     def run(self, coro, horizon=5.0):
         async def w():
